@@ -40,7 +40,7 @@ FcgiRecs == { [t |-> t, claim |-> c, pad |-> p] :
                 t \in {"out", "err", "end", "unk", "badver"}, c \in {"ok", "short", "zero", "max"}, p \in {"0", "7short"} }
 
 Alphabet(k) ==
-    CASE k = "link"   -> {"<", ">", ",", ";", "=", "a", " "}
+    CASE k = "link"   -> {"<", ">", ",", ";", "=", "a", " ", "\""}
       [] k = "ua"     -> {"Firefox/", "Chrome", "Edge", "Safari", "CriOS", "Windows", "45", "52", ".", "0", "-", " "}
       [] k = "tpl"    -> {"{", "}", "\\", ">", "~", "?", "$", "<", "label", "1", "x"}
       [] k = "host"   -> {"a", ".", ":", "[", "]", "80", "-"}
